@@ -10,7 +10,8 @@ ID = "C19"
 RULE = (
     "generated problems whose base (tasks, resources, assignments, buffers with their load/unload accesses, horizon) is feasible - "
     "checked first - plus 1-5 generated user constraints (incompatible start/end pins, precedence cycles, windows shorter than "
-    "durations, unavailability covering the horizon, and random ones) among which 0-4 are irrelevant. Each is solved with "
+    "durations, unavailability covering the horizon, and random ones) among which 0-4 are irrelevant; in a second stratum members of the "
+    "conflicts are optional constraints obliged to apply by a ForceApplyNOptionalConstraints rule. Each is solved with "
     "debug=True and, independently rebuilt, with debug=False. Oracle: same verdict in both modes; a schedule returned in debug "
     "mode is reference-valid; when infeasible, every constraint object printed in the conflict list is a member of "
     "problem.constraints, the list is not empty, and base + listed constraints (rebuilt, solved without debug) is infeasible. "
